@@ -228,6 +228,33 @@ def run_atom(sx, cfg, env):
             dec = rq.decode(want)
             _require_same(sx, a, dec["val"], v, "reference-pdu-decodes-to-value")
 
+    if prop == "C02":
+        # backend independence: the same encode with the other bitstruct back end gives the same
+        # PDU.  Symbolic mode: the "py" variant of the model; concrete mode (replays): the real
+        # pure-python bitstruct module instead of bitstruct.c
+        import odxtools.encodestate as es
+        import odxtools.decodestate as ds
+        from models import bitstruct_model
+        if sx.sym:
+            other = bitstruct_model.Model("py" if cfg.get("backend", "c") == "c" else "c")
+        else:
+            import bitstruct as other
+        saved = es.bitstruct, ds.bitstruct
+        es.bitstruct = ds.bitstruct = other
+        try:
+            try:
+                pdu_b = rq.encode(val=v)
+                dec_b = rq.decode(core.frozen(pdu_b))
+            except Exception as e:  # noqa: BLE001
+                sx.observe("other-backend-exception", type(e).__name__)
+                sx.fail("both-bitstruct-backends-agree")
+                return
+        finally:
+            es.bitstruct, ds.bitstruct = saved
+        sx.require(s_and(len(pdu_b) == len(pdu), core.frozen(pdu_b) == core.frozen(pdu)),
+                   "both-bitstruct-backends-agree")
+        _require_same(sx, a, dec_b["val"], v, "both-bitstruct-backends-agree")
+
     if prop == "C08":
         sbl = rq.get_static_bit_length()
         if sbl is not None:
@@ -287,6 +314,10 @@ def _require_same(sx, a, got, want, label):
             except OverflowError:
                 w32 = float("inf") if want > 0 else float("-inf")
         sx.require(_feq(got, w32), label)
+        # rounding to binary32 is the wire format, overflowing to infinity is not
+        inf = float("inf")
+        sx.require(core.s_implies(s_and(want != inf, want != -inf),
+                                  s_and(got != inf, got != -inf)), label + ":finite-stays-finite")
     elif dtp == "A_FLOAT64":
         sx.require(_feq(got, want), label)
     elif dtp == "A_BYTEFIELD":
